@@ -169,10 +169,11 @@ def sieve_cases(tier, rng, extended):
         prof = None
         if quick and b >= 3000 and b not in ksel:
             prof = ["release"]
-        yield Case(f"primesieve_block {b}", k=(b in ksel), profiles=prof, tag="sieve")
-    yield Case("primesieve_walk", k=False, profiles=(["release"] if quick else None), timeout=300.0, tag="sieve")
+        yield Case(f"primesieve_block {b}", k=(b in ksel), profiles=prof, timeout=(150.0 if b >= 60000 else None), tag="sieve")
+    # the end markers continue the same walk; the complete walk then starts from a fresh sieve
     for b in (65536, 65537, 65540):
-        yield Case(f"primesieve_block {b}", tag="sieve")
+        yield Case(f"primesieve_block {b}", timeout=150.0, tag="sieve")
+    yield Case("primesieve_walk", k=False, profiles=(["release"] if quick else None), timeout=400.0, tag="sieve")
 
 
 def prime_power_neighbours(limit):
